@@ -48,14 +48,17 @@ Res  == DOMAIN ResDef
 FRes == {r \in Res : ResDef[r].kind = "F"}
 NRes == {r \in Res : ResDef[r].kind = "NF"}
 IsF(r) == ResDef[r].kind = "F"
-Fields == {"m", "i"}             \* non-fungible data: field m is mutable, field i is not
-MutableFields == {"m"}
-Data0 == [m |-> 0, i |-> 0]
+\* non-fungible data: four fields in schema order a, b, c, d; b and d are mutable, a and c are not.  A freshly minted
+\* non-fungible has a different value in every field, so writing the wrong field is visible.
+Fields == {"a", "b", "c", "d"}
+MutableFields == {"b", "d"}
+FieldArgs == Fields \cup {"z"}      \* "z": a field name the schema does not have
+Data0 == [a |-> 1, b |-> 2, c |-> 3, d |-> 4]
 
 VARIABLES
   vault,      \* [account -> [resource -> container]]                 (working copy inside a transaction)
   supply,     \* [resource -> amount]   recorded total supply (0 and unused if not tracked)
-  data,       \* [NF resource -> [live id -> [m, i]]]
+  data,       \* [NF resource -> [live id -> [a, b, c, d]]]
   ever,       \* [NF resource -> set of ids ever minted]  (live ids and tombstones)
   ctr,        \* [NF resource -> number of RUID ids generated]
   wt,         \* worktop: [resource -> [on |-> BOOLEAN, c |-> container]]
@@ -383,6 +386,8 @@ AssertContains(S, r, n) == IF WtTotal(S, r) < n THEN Fl(S, "AssertionFailed") EL
 AssertAny(S, r) == IF WtTotal(S, r) = 0 THEN Fl(S, "AssertionFailed") ELSE S
 AssertNF(S, r, ids) == IF (S.wt[r].on /\ ids \subseteq AllIds(S.wt[r].c)) \/ ids = {} THEN S ELSE Fl(S, "AssertionFailed")
 
+\* the field is looked up by NAME among the mutable fields (an immutable or unknown name fails), then exactly that field of the
+\* entry is replaced
 UpdateNFData(S, r, id, f, v) ==
   IF f \notin MutableFields THEN Fl(S, "UnknownMutableFieldName")
   ELSE IF id \in DOMAIN S.data[r] THEN [S EXCEPT !.data[r][id][f] = v]
@@ -488,7 +493,7 @@ CandOf(S, op) ==
        [] op = "AssertContains" -> {I(op, "", r, n, {}, 0, "", 0) : r \in Res, n \in AmtArgs}
        [] op = "AssertAny" -> {I(op, "", r, 0, {}, 0, "", 0) : r \in Res}
        [] op = "AssertNF" -> ResIds
-       [] op = "UpdateNFData" -> UNION {{I(op, "", r, 0, {}, x, f, v) : x \in known(r), f \in Fields, v \in DataVals} : r \in NRes}
+       [] op = "UpdateNFData" -> UNION {{I(op, "", r, 0, {}, x, f, v) : x \in known(r), f \in FieldArgs, v \in DataVals} : r \in NRes}
 Cand(S) == UNION {CandOf(S, op) : op \in Ops}
 
 -----------------------------------------------------------------------------
